@@ -359,9 +359,9 @@ def norm(t):
 
 def unpack(n):
     """inverse of the Coq `pack`: (member V, holds (None/bool) as ("Some", b) or None, (in Np, in Nn), (clauses), guard)"""
-    bits = [(n >> k) & 1 == 1 for k in range(12)]
+    bits = [(n >> k) & 1 == 1 for k in range(13)]
     holds = ("Some", bits[1]) if bits[2] else None
-    return (bits[0], holds, (bits[3], bits[4]), (bits[5], bits[6], bits[7], bits[8], bits[9], bits[10]), bits[11])
+    return (bits[0], holds, (bits[3], bits[4]), (bits[5], bits[6], bits[7], bits[8], bits[9], bits[10], bits[11]), bits[12])
 
 
 def model_lit(t):
@@ -1204,7 +1204,8 @@ def all_leaves():
         for n in (0, 1, 2):
             out.append(("len", op, n))
     out += [("rlen", "<", 1), ("rlen", ">=", 2), ("rlen", "==", 2), ("rlen", ">", 0)]
-    for t in [(("typed", "int"),), (("typed", "int"), ("typed", "str")), (("known", ("int", 1)),), (("sub", "A"),), (("typed", "float"),), (("known", ("none",)), ("typed", "A")), (("typed", "tuple"),), (("typed", "C"),)]:
+    for t in [(("typed", "int"),), (("typed", "int"), ("typed", "str")), (("known", ("int", 1)),), (("sub", "A"),), (("typed", "float"),), (("known", ("none",)), ("typed", "A")), (("typed", "tuple"),), (("typed", "C"),),
+              (("gen", ("list", "str")),), (("gen", ("list", "int")),), (("gen", ("dict", "str", "int")),), (("gen", ("list", "int")), ("typed", "str"))]:
         out.append(("typeis", t))
     for t in [((("typed", "int"), ()),), ((("typed", "A"), ()), (("known", ("none",)), ())), ((("tuple", ((False, "int"),)), ()),)]:
         out.append(("typeguard", t))
@@ -1283,6 +1284,7 @@ FINDINGS = {
     "enum_class_object": "C02-enum-class-literal",
     "sequence_pattern_str": "C02-sequence-pattern-str",
     "assert_promotion": "C02-assert-promotion",
+    "generic_pattern_negative": "C02-generic-typeis-negative",
 }
 COQ_HEADER = ("From Coq Require Import ZArith List Bool NArith. Import ListNotations.\n"
               "Require Import PV.Narrow.Base PV.Narrow.Model PV.Narrow.Guards.\n"
@@ -1367,11 +1369,11 @@ def run(tier: str, replay: str | None = None):
                  "Definition UNIV_INFO := Eval vm_compute in map (fun o => (o, (subclass_bool o, multiple_inheritance o, wf_obj o))) UNIV.\n")
         FULL_TAIL = ("map (fun (oi : obj * (bool * bool * bool)) => let '(o, (sb, mi, wf)) := oi in "
                      "let h := holds c o in let pn := promotion_negative c o in let ec := enum_class_object o in "
-                     "let ss := sequence_pattern_str c o in let ap := assert_promotion c o in pack "
+                     "let ss := sequence_pattern_str c o in let ap := assert_promotion c o in let gp := generic_pattern_negative c o in pack "
                      "[member o V; match h with Some b => b | None => false end; "
                      "match h with Some _ => true | None => false end; "
-                     "member o Np; member o Nn; pn; sb; mi; ec; ss; ap; "
-                     "wf && cond_ok c o && negb mi && negb sb && negb pn && negb ec && negb ss && negb ap]) UNIV_INFO")
+                     "member o Np; member o Nn; pn; sb; mi; ec; ss; ap; gp; "
+                     "wf && cond_ok c o && negb mi && negb sb && negb pn && negb ec && negb ss && negb ap && negb gp]) UNIV_INFO")
 
         def model_term(v, c, full):
             return (f"(let V := {value_coq(v)} in let c := {cond_coq(c)} in "
@@ -1578,7 +1580,7 @@ def run(tier: str, replay: str | None = None):
         attributed = None
         if model is not None and kind in ("lost", "always_true_wrong") and model[i][3]:
             mo = unpack(model[i][3][j])
-            clauses = dict(zip(("promotion_negative", "subclass_bool", "multiple_inheritance", "enum_class_object", "sequence_pattern_str", "assert_promotion"), mo[3]))
+            clauses = dict(zip(("promotion_negative", "subclass_bool", "multiple_inheritance", "enum_class_object", "sequence_pattern_str", "assert_promotion", "generic_pattern_negative"), mo[3]))
             if kind == "lost":
                 # "the implementation behaves on it as the model predicts": the correspondence check of this
                 # very output (route, branch) passed — exact, narrow_e2e, or extensional, whichever applies —
